@@ -59,7 +59,11 @@ Record config := Cfg {
 Record rules := Rules {
   follower_ack : N -> N -> N -> N;                (* prev_i lastnew len -> match_index *)
   follower_commit : N -> N -> N -> N -> N -> N;   (* lc commit prev_i lastnew len -> value assigned when lc > commit *)
-  stale_ack_ignored : bool                        (* a response with term < current_term is dropped *)
+  stale_ack_ignored : bool;                       (* a response with term < current_term is dropped *)
+  vote_log_ok : N -> N -> N -> N -> bool -> bool; (* cand last idx, cand last term, my last idx, my last term, tie-break -> log_ok *)
+  prev_ok : N -> N -> bool;                       (* term of my entry at prev_log_index, prev_log_term *)
+  commit_pick : N -> N -> N;                      (* |sorted match list|, quorum -> position picked *)
+  commit_term_ok : N -> N -> bool                 (* term of the entry at the new commit index, current term *)
 }.
 
 Definition last_info (l : list entry) : N * N :=
@@ -112,9 +116,7 @@ Definition h_rv (self : N) (nd : node) (t cand lli llt : N) (ok : bool) : node *
   if N.eqb t (term nd1) then
     let can_vote := match voted nd1 with None => true | Some c => N.eqb c cand end in
     let '(mli, mlt) := last_info (log nd1) in
-    let strictly := N.ltb mlt llt || (N.eqb llt mlt && N.ltb mli lli) in
-    let equal := N.eqb llt mlt && N.eqb lli mli in
-    if can_vote && (strictly || equal) && ok then
+    if can_vote && vote_log_ok ru lli llt mli mlt ok && ok then
       (set_term_vote nd1 (term nd1) (Some cand) (rl nd1), RVR (term nd1) true self)
     else (nd1, RVR (term nd1) false self)
   else (nd1, RVR (term nd1) false self).
@@ -177,7 +179,7 @@ Definition h_ae (self : N) (nd : node) (t ldr prev_i prev_t : N) (es : list entr
     let log_ok :=
       if N.eqb prev_i 0 then true
       else if N.leb prev_i (llen (log nd1)) then
-        match nth_entry (log nd1) prev_i with Some x => N.eqb (eterm x) prev_t | None => true end
+        match nth_entry (log nd1) prev_i with Some x => prev_ok ru (eterm x) prev_t | None => true end
       else false in
     if log_ok then
       let l' := append_entries es (log nd1) in
@@ -196,11 +198,11 @@ Definition try_advance (nd : node) : node :=
   match rl nd, lvs nd with
   | Leader, Some ls =>
       let ms := sort_asc (map snd (match_index ls) ++ [llen (log nd)]) in
-      let qi := N.to_nat (llen ms - quorum cfg) in
+      let qi := N.to_nat (commit_pick ru (llen ms) (quorum cfg)) in
       let nc := nth qi ms 0 in
       if N.ltb (commit nd) nc then
         match nth_entry (log nd) nc with
-        | Some x => if N.eqb (eterm x) (term nd)
+        | Some x => if commit_term_ok ru (eterm x) (term nd)
                     then Node (term nd) (voted nd) (rl nd) (votes nd) (log nd) nc (in_prevote nd) (prevotes nd) (lvs nd)
                     else nd
         | None => nd
@@ -338,8 +340,13 @@ Definition grun (ops : list gop) : sys := fold_left (fun s o => fst (gstep s o))
 
 End Handlers.
 
+(* the textbook up-to-date rule (the geometric tie-break can only refuse an equal log) *)
+Definition std_vote_log_ok (lli llt mli mlt : N) (gok : bool) : bool :=
+  N.ltb mlt llt || (N.eqb llt mlt && N.ltb mli lli) || (N.eqb llt mlt && N.eqb lli mli && gok).
+
 (* the two acknowledgement rules that have existed in the source *)
 Definition rules_whole_log : rules :=       (* before the repair: whole local length *)
-  Rules (fun _ _ len => len) (fun lc _ _ _ len => N.min lc len) false.
+  Rules (fun _ _ len => len) (fun lc _ _ _ len => N.min lc len) false std_vote_log_ok N.eqb N.sub N.eqb.
 Definition rules_verified : rules :=        (* after: only the prefix this request verified *)
-  Rules (fun _ ln len => N.min ln len) (fun lc c _ ln len => N.max c (N.min lc (N.min ln len))) true.
+  Rules (fun _ ln len => N.min ln len) (fun lc c _ ln len => N.max c (N.min lc (N.min ln len))) true
+        std_vote_log_ok N.eqb N.sub N.eqb.
